@@ -19,3 +19,6 @@ pub assume_specification<P: std::str::pattern::Pattern>[ str::starts_with ](s: &
 // Iterator::any / all over a slice iterator (with a closure or a function): some boolean
 pub assume_specification<'a, T, F: FnMut(&'a T) -> bool>[ <std::slice::Iter<'a, T> as Iterator>::any ](it: &mut std::slice::Iter<'a, T>, f: F) -> (r: bool) where std::slice::Iter<'a, T>: Sized;
 pub assume_specification<'a, T, F: FnMut(&'a T) -> bool>[ <std::slice::Iter<'a, T> as Iterator>::all ](it: &mut std::slice::Iter<'a, T>, f: F) -> (r: bool) where std::slice::Iter<'a, T>: Sized;
+// Vec::dedup removes consecutive repeated elements: the result is not longer and consists of elements of the original
+pub assume_specification<T: PartialEq, A: std::alloc::Allocator>[ Vec::<T, A>::dedup ](v: &mut Vec<T, A>)
+    ensures final(v)@.len() <= old(v)@.len(), forall|i: int| 0 <= i < final(v)@.len() ==> old(v)@.contains(#[trigger] final(v)@[i]);
